@@ -109,7 +109,7 @@ PROPS = {
     "C07": {
         "module": "GtfsVerif.Props.C07",
         "trusted_base": RT_TB,
-        "partial": ["permutation invariance for conflict-free messages is not yet one theorem: proved are sortedness/uniqueness for every message, own-entity-wins wherever the own entity stands, commutation of mentions of different trips; the composition is carried by the correspondence (6 entity orders per case on model and implementation)"],
+        "partial": ["permutation invariance is proved for Trips (identifiers, order and data: C07_parse_trips_perm_invariant, for no extension and the NYCT trips extension, whose pre-pass treats each entity on its own) via the closed form of merging one trip's mentions; invariance of Vehicles (as a multiset) and of the links under permutation is not yet a theorem and is carried by the correspondence (6 entity orders per case on model and implementation) and the C04/C07 oracles"],
         "assumptions": [],
     },
     "C12": {
@@ -128,7 +128,7 @@ PROPS = {
     "C17": {
         "module": "GtfsVerif.Props.C17",
         "trusted_base": RT_TB,
-        "partial": ["elevator grouping over a whole feed ('exactly one output alert per group at its first member's position') is proved per step (first member kept under the documented id, later members skipped, stops a duplicate-free set) and checked end to end by the oracle; the fold-level theorem is not yet stated as one theorem",
+        "partial": ["elevator grouping over a whole feed: proved are the fold-level key theorem (the group table's keys are exactly the distinct documented ids in order of first appearance, C17_group_keys), one pre-processed entry per entity, and per step: first member kept under the documented id, later members skipped, stops a duplicate-free set; that the stops of a group are exactly its members' stops over the whole fold is checked end to end by the oracle",
                     "the JSON text of the NYCT metadata is opaque in the model (a marker); its presence is modelled exactly"],
         "assumptions": [],
     },
